@@ -487,7 +487,7 @@ func c15PoolSession(ev *vlib.Evidence, bin, store string, session int, messages 
 	batch := 0
 	for sent < messages {
 		batch++
-		class := vlib.Pick(r, "requests-ws", "requests-ws", "requests-http", "garbage-ws", "garbage-http", "malicious-host")
+		class := vlib.Pick(r, "requests-ws", "requests-ws", "requests-http", "garbage-ws", "garbage-http", "malicious-host", "wedged-host")
 		var last []byte
 		switch class {
 		case "requests-ws":
@@ -619,6 +619,19 @@ func c15PoolSession(ev *vlib.Evidence, bin, store string, session int, messages 
 			}
 			sent += k
 			ev.Count("messages:"+class, int64(k))
+		case "wedged-host":
+			// a registered host floods its own connection with duplicate unsolicited
+			// replies and stays connected; another node's peer request (which makes
+			// the pool call that host) must still be answered
+			last = []byte(`{"jsonrpc":"2.0","id":1,"result":null} x3 (unsolicited, same id) from a registered host`)
+			pc.logInput(class, last)
+			if problem := c15WedgedHost(pc, session*1000+batch, nonce); problem != "" {
+				if !crashed(class, last) {
+					ev.Violate("other-connection-not-served:wedged-host", map[string]interface{}{"store": store, "problem": problem})
+				}
+			}
+			sent += 4
+			ev.Count("messages:"+class, 4)
 		case "malicious-host":
 			last = c15MaliciousHost(ev, pc, r, session*1000+batch, nonce)
 			sent += 5
@@ -726,6 +739,52 @@ func c15MaliciousHost(ev *vlib.Evidence, pc *poolChild, r *rand.Rand, n int, non
 		// decided by the crash / canary checks of the caller
 	}
 	return []byte(reply)
+}
+
+// c15WedgedHost: see the "wedged-host" class. Returns a problem description or "".
+func c15WedgedHost(pc *poolChild, n int, nonce func(string) int64) string {
+	host := vlib.NewIdentity("c15wedgehost", n)
+	hc, err := wsDial(pc.addr)
+	if err != nil {
+		return ""
+	}
+	defer hc.Close()
+	req := vlib.ConnectReq(true, "geth", "", "")
+	nn := nonce(host.NodeID)
+	all, _ := json.Marshal([]interface{}{vlib.RefSign(host.Key, "vipnode_connect", host.NodeID, nn, req), host.NodeID, nn, req})
+	hc.WriteMessage(websocket.TextMessage, []byte(`{"jsonrpc":"2.0","id":1,"method":"vipnode_connect","params":`+string(all)+`}`))
+	hc.SetReadDeadline(time.Now().Add(10 * time.Second))
+	if _, _, err := hc.ReadMessage(); err != nil {
+		return ""
+	}
+	for i := 0; i < 3; i++ {
+		hc.WriteMessage(websocket.TextMessage, []byte(`{"jsonrpc":"2.0","id":1,"result":null}`))
+	}
+	time.Sleep(100 * time.Millisecond)
+	client := vlib.NewIdentity("c15wedgeclient", n)
+	cc, err := wsDial(pc.addr)
+	if err != nil {
+		return ""
+	}
+	defer cc.Close()
+	creq := vlib.ConnectReq(false, "geth", "", "")
+	cn := nonce(client.NodeID)
+	call, _ := json.Marshal([]interface{}{vlib.RefSign(client.Key, "vipnode_connect", client.NodeID, cn, creq), client.NodeID, cn, creq})
+	cc.WriteMessage(websocket.TextMessage, []byte(`{"jsonrpc":"2.0","id":1,"method":"vipnode_connect","params":`+string(call)+`}`))
+	cc.SetReadDeadline(time.Now().Add(10 * time.Second))
+	if _, _, err := cc.ReadMessage(); err != nil {
+		return "client connect not answered: " + err.Error()
+	}
+	preq := pool.PeerRequest{Num: 100}
+	pn := nonce(client.NodeID)
+	pall, _ := json.Marshal([]interface{}{vlib.RefSign(client.Key, "vipnode_peer", client.NodeID, pn, preq), client.NodeID, pn, preq})
+	cc.WriteMessage(websocket.TextMessage, []byte(`{"jsonrpc":"2.0","id":2,"method":"vipnode_peer","params":`+string(pall)+`}`))
+	// the pool's own whitelist timeout is 5 s; 25 s is a watchdog, not a deadline on the pool
+	cc.SetReadDeadline(time.Now().Add(25 * time.Second))
+	if _, _, err := cc.ReadMessage(); err != nil {
+		return "a peer request by another node was not answered within 25 s while a registered host had wedged its own connection: " + err.Error()
+	}
+	return ""
 }
 
 // EvilPool plays a malicious pool towards a real agent binary.
